@@ -86,6 +86,16 @@ theorem rbAcc_length (e : ColEnv α) (mr : Option (List Nat)) (rb : List Nat) (F
             subst h
             exact gaussList_length _ _ _ _ _ hg
 
+theorem rbAccD_length (e : ColEnv α) (st : SuState) (uncReal : Bool) (F : Nat → α) (w : α)
+    (arb : List α) (h : rbAccD e st uncReal F w = .ok arb) : arb.length = st.lay.rb.length := by
+  unfold rbAccD at h
+  cases h0 : rbAcc e (rbMassRows st uncReal) st.lay.rb F with
+  | error m => rw [h0] at h; cases h
+  | ok arb0 =>
+    rw [h0] at h
+    simp only at h
+    rw [rbDamp_length e _ _ arb0 arb w h, rbAcc_length e _ _ F arb0 h0]
+
 /-- the rigid-body block under `incrb`: nothing is written when no letter is requested, otherwise
 each value is the `"dva"` value with the excluded letters cleared (`incrb_table`) -/
 theorem rbVals_options (e : ColEnv α) (st : SuState) (uncReal : Bool) (F : Nat → α) (w : α)
@@ -94,8 +104,7 @@ theorem rbVals_options (e : ColEnv α) (st : SuState) (uncReal : Bool) (F : Nat 
     rbVals e st uncReal F w =
       .ok (if (e.inc.d || e.inc.v || e.inc.a) = true then vrbRef.map (applyIncrb e.inc) else []) := by
   unfold rbVals at href ⊢
-  have hacc : rbAcc e.ref (rbMassRows st uncReal) st.lay.rb F =
-      rbAcc e (rbMassRows st uncReal) st.lay.rb F := rfl
+  have hacc : rbAccD e.ref st uncReal F w = rbAccD e st uncReal F w := rfl
   rw [hacc] at href
   simp only [ColEnv.ref] at href
   by_cases hemp : st.lay.rb = []
@@ -108,13 +117,13 @@ theorem rbVals_options (e : ColEnv α) (st : SuState) (uncReal : Bool) (F : Nat 
       | cons _ _ => rfl
     simp only [hemp', Incrb.all, Bool.or_self, Bool.not_true, Bool.false_eq_true, if_false,
       Bool.false_or] at href ⊢
-    cases ha : rbAcc e (rbMassRows st uncReal) st.lay.rb F with
+    cases ha : rbAccD e st uncReal F w with
     | error m => rw [ha] at href; cases href
     | ok arb =>
       rw [ha] at href
       simp only [Except.map, Except.ok.injEq] at href
       subst href
-      refine ⟨by simp [rbAcc_length e _ _ _ _ ha], ?_⟩
+      refine ⟨by simp [rbAccD_length e st uncReal F w arb ha], ?_⟩
       by_cases hfl : (e.inc.d || e.inc.v || e.inc.a) = true
       · simp only [hfl, Bool.not_true, Bool.false_eq_true, if_false, if_true, Except.map, List.map_map]
         congr 1
